@@ -165,7 +165,7 @@ func runC11(tier string) int {
 
 func c11Eval(r *harness.Run, sc *model.Script, copts *comp.Opts, desc string, nontrivial bool) {
 	scripts := []*model.Script{sc}
-	src := "const KONST = 7 + 1\n" + model.Print(scripts)
+	src := "const KONST = 7 + 1\nconst VAR_RES2 = VAR_OTHER\nconst VAR_K = VAR_OTHER2\n" + model.Print(scripts)
 	for _, opt := range []bool{true, false} {
 		ok, rej, st, v, out := checkScripts(scripts, src, opt, machine.Lockstep, copts)
 		if !ok {
